@@ -641,12 +641,11 @@ func c15r1(c *core.Ctx) {
 	}
 	// an in-range default is stored unchanged: the clamps return only the value, the minimum or the maximum (shared with C12-R2)
 	for _, name := range []string{"clampInt", "clampFloat"} {
-		f := p.Func("characteristic", "(*Characteristic)."+name)
+		f, val := clampFunc(p, name)
 		if f == nil {
 			c.Undecided("helper-passes:"+name, token.NoPos, "not found")
 			continue
 		}
-		val := f.Params[1]
 		var minV, maxV ssa.Value
 		core.Instrs(f, func(i ssa.Instruction) {
 			ta, ok := i.(*ssa.TypeAssert)
@@ -655,10 +654,10 @@ func c15r1(c *core.Ctx) {
 			}
 			for _, r := range *ta.Referrers() {
 				if e, ok := r.(*ssa.Extract); ok && e.Index == 0 {
-					if _, ok := core.FieldLoad(ta.X, tChar, "MinValue"); ok {
+					if isBoundOf(ta.X, "MinValue") {
 						minV = e
 					}
-					if _, ok := core.FieldLoad(ta.X, tChar, "MaxValue"); ok {
+					if isBoundOf(ta.X, "MaxValue") {
 						maxV = e
 					}
 				}
